@@ -5,7 +5,10 @@ use crate::streaming::deduplication::message_deduplicator::MessageDeduplicator;
 use crate::streaming::models::messages::RetainedMessage;
 use crate::streaming::segments::*;
 use crate::streaming::storage::SystemStorage;
+#[cfg(not(kani))]
 use dashmap::DashMap;
+#[cfg(kani)]
+use iggy::verif_model::dashmap::DashMap;
 use iggy::consumer::ConsumerKind;
 use iggy::models::stats::CacheMetrics;
 use iggy::utils::byte_size::IggyByteSize;
